@@ -10,12 +10,13 @@ hprop.install(globals(), hprop.HistoryProperty(
                     nets=["hav", "gen", "gen", "denver"]),
     nontrivial=lambda f: {"stationary_entered", "stationary_instruction_remote_target", "arrival_by_default_transition"} <= f,
     rule=("stateful histories over generated worlds on straight-line, generated street-graph and Denver networks; directives biased "
-          "to stationary instructions naming far-away stations/bases, instructions from mid-link, every activity as starting point; "
+          "to stationary instructions naming far-away stations/bases, instructions from mid-link, every activity as starting point; a custom controller's own instruction type that names the next activity itself (boarding, queueing, "
+          "travelling with a route it planned: direct, from / to elsewhere, empty, reversed), queued for a step or probed; "
           "after every step and every single-instruction probe each vehicle's activity is compared with its cell and its route with "
           "its position and target; pickup/drop-off events with request origin/destination. non-trivial = >=1 stationary activity "
           "entered AND >=1 stationary instruction naming a remote target AND >=1 arrival by default transition; distinct = sha1(world, op log)"),
     assumptions=hprop.COMMON_ASSUMPTIONS,
     quick=(16, 100, 35), thorough=(16, 1200, 60), probes=True,
-    instr_bias={"relocate": True, "kinds": [3, 3, 3, 4, 4, 4, 6, 6, 6, 2, 5, 1, 0, 8, 7], "tclasses": [0, 1, 2, 2, 2, 2, 3, 5]},
+    instr_bias={"relocate": True, "raw": True, "kinds": [3, 3, 3, 4, 4, 4, 6, 6, 6, 2, 5, 1, 0, 8, 7], "tclasses": [0, 1, 2, 2, 2, 2, 3, 5]},
 ))
 FLOORS = {"quick": {"flag:stationary_instruction_remote_target": 60}, "thorough": {"flag:stationary_instruction_remote_target": 1000}}
